@@ -235,6 +235,14 @@ impl<'tcx> Cx<'tcx> {
                 // &[u8; N] or &T literal
                 let (prov, off) = ptr.into_raw_parts();
                 let alloc_id = prov.alloc_id();
+                if let Some(rustc_middle::mir::interpret::GlobalAlloc::Static(sdid)) = self.tcx.try_get_global_alloc(alloc_id) {
+                    let _ = write!(out, ",\"static\":{}", js(&self.path(sdid)));
+                    return;
+                }
+                if let Some(rustc_middle::mir::interpret::GlobalAlloc::Function { instance }) = self.tcx.try_get_global_alloc(alloc_id) {
+                    let _ = write!(out, ",\"fnptr\":{}", js(&self.path(instance.def_id())));
+                    return;
+                }
                 if let ty::Ref(_, inner, _) = t.kind() {
                     let mut done = false;
                     if let ty::Array(elem, n) = inner.kind() {
